@@ -74,6 +74,10 @@ func findGo() string {
 func goEnv() []string {
 	env := os.Environ()
 	env = append(env, "GOFLAGS=-mod=mod", "GOPROXY=off", "GOSUMDB=off", "GOTOOLCHAIN=local", "GOWORK=off")
+	if filepath.IsAbs(goBin) {
+		// tools that call "go" themselves (go/packages) must find the same toolchain
+		env = append(env, "PATH="+filepath.Dir(goBin)+":"+os.Getenv("PATH"))
+	}
 	return env
 }
 
@@ -158,6 +162,8 @@ func runCheck(prop, tier string) int {
 		return checkSrcsim(prop, tier)
 	case "C05":
 		return checkC05(tier)
+	case "C16":
+		return checkC16(tier)
 	}
 	infra("no check registered for %s", prop)
 	return 2
@@ -165,6 +171,9 @@ func runCheck(prop, tier string) int {
 
 func runBuildAll() int {
 	if _, err := buildFrontw(false); err != nil {
+		infra("%v", err)
+	}
+	if _, err := buildFrontw(true); err != nil {
 		infra("%v", err)
 	}
 	buildToolchain()
